@@ -199,8 +199,36 @@ func diffOne(id int, raw json.RawMessage) (res common.Result) {
 		return res
 	}
 	rng := rand.New(rand.NewSource(it.Seed))
-	m := wgen.Assemble(it.Bodies, rng)
-	return diffModule(id, m, it, func(fi int) string { return opsOf(it.Bodies[fi]) })
+	raws := wgen.Concretize(it.Bodies, rng)
+	res = diffModule(id, wgen.AssembleRaw(raws), it, func(fi int) string { return opsOf(it.Bodies[fi]) })
+	if res.OK || !wgen.HasFuzzyNaN(raws) {
+		return res
+	}
+	for _, f := range res.Fails {
+		if !strings.HasPrefix(f.Key, "diff#") {
+			return res // a listed finding or an internal failure: not a matter of NaN bits
+		}
+	}
+	// The engines may differ in the payload and sign of NaNs produced by float arithmetic (left open by the specification), and
+	// the program may turn those bits into anything (extract_lane, reinterpret, stores read back as integers). Decide by the
+	// variant that replaces every such NaN by the canonical one: if that agrees on both engines, the divergence is permitted.
+	res2 := diffModule(id, wgen.AssembleRaw(wgen.Canonicalize(raws)), it, func(fi int) string { return opsOf(it.Bodies[fi]) })
+	still := false
+	for _, f := range res2.Fails {
+		if strings.HasPrefix(f.Key, "diff#") {
+			still = true
+		}
+	}
+	if !still {
+		obs, _ := res2.Obs.(map[string]int)
+		if obs == nil {
+			obs = map[string]int{}
+		}
+		obs["divergences-attributed-to-unspecified-NaN-bits"]++
+		res2.Obs = obs
+		return res2
+	}
+	return res
 }
 
 func diffModule(id int, m *wgen.Module, it item, ops func(int) string) (res common.Result) {
